@@ -518,8 +518,11 @@ def run(rep, tier, seed, replay):
     rep.cov['rule'] = ('codec: every case of Encryption!Cases(n) for every configured value length x filling x master key '
                        'length, each concretised for every byte position of its region; non-trivial = the stored form is '
                        'corrupted or the reader holds another master key; distinct by hash of (n, filling, key length, '
-                       'case).  server: scenario behaviours + TLC-simulated behaviours of MC_Encryption; non-trivial = '
-                       'publishes to the encrypted stream and then subscribes / restarts / tampers; distinct by hash of '
+                       'case).  server: scenario behaviours + TLC counterexamples of the defective model variants '
+                       '(SnapKeeps = FALSE) + TLC-simulated behaviours of MC_Encryption selected from a 3-4x larger pool by '
+                       'situation features (how the partition objects in use were rebuilt > what is done with the encrypted '
+                       'stream, coverage.server_situations); non-trivial = '
+                       'publishes to the encrypted stream and then subscribes / restarts / installs a snapshot / tampers; distinct by hash of '
                        'the step list')
     rep.cov['exhaustive'] = True   # the configured abstract product was enumerated by TLC and replayed completely (checked by TLC per value)
     rep.cov['samples'] = [s for s in (sample,) if s] + behaviours[:2]
